@@ -8,6 +8,11 @@ def main():
                        env=dict(os.environ, PYTHONHASHSEED="0"))
     if r.returncode != 0:
         print("setup: worker selfcheck failed"); return 2
+    # small four-way determinism self-test, one property per engine
+    r = subprocess.run([sys.executable, os.path.join(HERE, "selftest", "determinism.py"), "--n", "32", "--fresh", "4",
+                        "C01", "C05", "C09", "C14", "C15", "C16", "C19"])
+    if r.returncode != 0:
+        print("setup: determinism self-test failed"); return 2
     print("setup: ok"); return 0
 if __name__ == "__main__":
     sys.exit(main())
